@@ -642,7 +642,7 @@ func cmdCheck(args []string) {
 		},
 		"assumptions": []string{
 			"bounds per harness as listed under coverage.harnesses[].bounds (sizes, element counts, unwinding limits); inputs beyond them are outside the claim",
-			"single-threaded execution; sync and atomic primitives are no-ops/plain accesses",
+			"one processor: goroutines are cooperative threads that switch only at blocking channel operations (one schedule per choice among ready select cases; preemption is outside the claim), timers run on a virtual clock that advances only when every goroutine is blocked; sync and atomic primitives are no-ops/plain accesses",
 			"environment models listed under coverage.environment_models_used (opaque formatting, slog no-op, time.Now nondeterministic non-decreasing)",
 			"go/packages+go/ssa (x/tools v0.50.0) represent the source faithfully; z3 5.1 (z3-new) answers are trusted",
 			"map iteration follows insertion order",
